@@ -1931,7 +1931,10 @@ func (a *Agent) TaskPrepare(Command int, Info any, Message *map[string]string, C
 									/* we failed to read from the socks proxy */
 									logger.Error(fmt.Sprintf("Failed to read from socket %08x: %v", SocketId, err))
 
-									a.SocksClientClose(int32(SocketId))
+								}
+
+								/* the client is gone (error or orderly close): forget the socket and tell the agent */
+								if a.SocksClientClose(int32(SocketId)) {
 
 									/* make a new job */
 									var job = Job{
